@@ -17,7 +17,7 @@ import (
 	"verif/internal/lang"
 )
 
-const corpusDir = core.Root + "/corpus"
+var corpusDir = core.Root + "/corpus"
 
 // canon renders values/blocks/bindings deterministically with their Go types.
 func canonValue(v any) string {
@@ -266,9 +266,9 @@ func corpusItems() ([]corpusItem, error) {
 	a = &asm{}
 	cs := []any{"t", "", "f", 7, "g"}
 	a.op(bc.NOP).op(bc.NIL).op(bc.ZERO).op(bc.ONE).op(bc.TRUE).op(bc.FALSE) // 5 values
-	a.op(bc.POPN, 3)                                                          // nil 0
-	a.op(bc.CONST, 3).op(bc.ADD)                                              // nil 7
-	a.op(bc.GETLOCAL, 1).op(bc.SETLOCAL, 0).op(bc.POP)                        // 7 7
+	a.op(bc.POPN, 3)                                                        // nil 0
+	a.op(bc.CONST, 3).op(bc.ADD)                                            // nil 7
+	a.op(bc.GETLOCAL, 1).op(bc.SETLOCAL, 0).op(bc.POP)                      // 7 7
 	a.op(bc.DEFBLOCK, 0, 1)
 	a.op(bc.GETLOCAL, 0).op(bc.SETFIELD, 2).op(bc.POP) // f = 7
 	a.op(bc.GETFIELD, 2).op(bc.NEG).op(bc.UNPLUS).op(bc.CONST, 3).op(bc.SUB).op(bc.CONST, 3).op(bc.MUL).op(bc.CONST, 3).op(bc.DIV)
